@@ -26,17 +26,34 @@ def _pro(it, p, b):
         it.stop(b)
 
 
-def tpl_stop(size, m1, p1, b1, p2, b2, m2, sa, n, sw=0, _twin=False):
-    w = World("c14.stop")
+AGE = 8
+
+
+def tpl_stopaged(size, m1, p1, b1, p2, b2, m2, sa, n, _twin=False):
+    """The same scenario in a pool that has already run (and flushed) AGE tasks: the ids at stake are 8, 9, 10, 11, 12 -
+    'newest first' must be numeric, also across a change in the number of digits."""
+    return tpl_stop(size, m1, p1, b1, p2, b2, m2, sa, n, 0, _twin, AGE)
+
+
+def tpl_stop(size, m1, p1, b1, p2, b2, m2, sa, n, sw=0, _twin=False, age=0):
+    w = World("c14.stopaged" if age else "c14.stop")
     code = 0
     try:
         # sw == 1: workers treat their first cancellation as a request and carry on (they stay *running*)
         pool = SimpleTaskPool(w.worker(0, swallow=(1 if sw == 1 else 0)), pool_size=size)
         it = Interp(w, pool, cbkind=0)
         try:
+            if age:
+                it.start(age); w.settle()
+                for j in range(age):
+                    it.release(j)
+                w.settle()
+                it.flush(True); w.settle()
+                if len(w.W) != age or pool._num_started != age:
+                    raise Excluded("prologue did not run (size 0)")
             it.start(m1); w.settle()
-            _pro(it, p1, b1); w.settle()
-            _pro(it, p2, b2); w.settle()
+            _pro(it, p1, b1 + age if (p1 != 3 and b1 >= 0) else b1); w.settle()
+            _pro(it, p2, b2 + age if (p2 != 3 and b2 >= 0) else b2); w.settle()
             it.start(m2); w.settle()
             running = sorted((x["id"] for x in w.W if x["state"] == "run"), reverse=True)
             before = [(x["state"], x["cancels"]) for x in w.W]
@@ -90,5 +107,10 @@ def families(tier):
     else:
         pre += ["sa == 0 or n == 0", "size >= 3", "m1 >= 3", "b1 <= 3", "b2 <= 3"]
         parts = parts_product(m1=(3, 4), p1=range(5), p2=range(5), m2=range(3))
+    PA = P[:-1]
+    prea = [q for q in pre if "sw" not in q] + ["size >= %d" % AGE]
+    partsa = parts_product(p1=(0, 1, 3, 4), p2=(0, 4), m2=(0, 2)) if not thorough else parts_product(m1=(3, 4), p1=range(5), p2=(0, 1, 4), m2=range(3))
     return [Family(name="stop", fn="tpl_stop", params=P, pre=pre, parts=parts,
-                   twin_pre=["m1 == 3", "p1 == 0", "p2 == 4", "m2 == 2", "sa == 0"], twin_args=[9, 3, 0, 1, 4, 0, 2, 0, 2, 0])]
+                   twin_pre=["m1 == 3", "p1 == 0", "p2 == 4", "m2 == 2", "sa == 0"], twin_args=[9, 3, 0, 1, 4, 0, 2, 0, 2, 0]),
+            Family(name="stopaged", fn="tpl_stopaged", params=PA, pre=prea, parts=partsa,
+                   twin_pre=["m1 == 3", "p1 == 0", "p2 == 4", "m2 == 2", "sa == 0"], twin_args=[9, 3, 0, 1, 4, 0, 2, 0, 2])]
